@@ -693,7 +693,7 @@ class Gen:
         weights = [5, 4,
                    4 if self.allow_measure else 0,
                    3 if self.allow_control else 0,
-                   1 if (self.allow_reset and not self.clifford_only) else 0,
+                   1 if self.allow_reset else 0,
                    1 if (self.allow_pauli_measure and self.allow_measure) else 0,
                    4 if self.allow_channels else 0,
                    2 if self.allow_subcircuits else 0,
